@@ -112,6 +112,13 @@ func c01Trees(tier string) []*enode {
 	add(eCall("F", eVar("a"), eCall("B", eVar("b")), eVar("a")))
 	add(eCall("G", eBin("+", eVar("a"), eVar("b")), eCall("B"), eBin("+", eVar("b"), eVar("a")), eCall("B"), eVar("a")))
 	add(eNeg(eBin("+", eCall("B"), eBin("*", eVar("a"), eVar("a")))))
+	// re-entrant evaluation of the same calculator with operands pending; a variable removed between two reads
+	add(eBin("*", eVar("a"), eCall("N", eBin("-", eVar("a"), eConst("1", 1)))))
+	add(eBin("-", eVar("a"), eCall("N", eVar("b"))))
+	add(eCall("F", eVar("b"), eCall("N"), eBin("+", eVar("a"), eCall("N", eVar("b")))))
+	add(eBin("+", eBin("+", eVar("a"), eCall("D")), eVar("a")))
+	add(eCall("F", eVar("a"), eCall("D"), eVar("b"), eVar("a")))
+	add(eBin("OR", ePost("IS NULL", eVar("a")), eBin("=", eCall("D"), eVar("a"))))
 	// S1: one operator
 	for _, op := range allOps {
 		base := mk(op, c01Leaf(0), c01Leaf(1))
@@ -241,7 +248,7 @@ var c01Styles = []printStyle{{}, {full: true}, {kwCase: 1, compact: true}, {kwCa
 
 type c01Log struct{ calls []string }
 
-func c01Funcs(log *c01Log, vars variables.IVariableCollection) functions.IFunctionCollection {
+func c01Funcs(log *c01Log, vars variables.IVariableCollection, nested func()) functions.IFunctionCollection {
 	fc := functions.NewFunctionCollection()
 	mkf := func(name string, ret func(args []*variants.Variant) *variants.Variant) {
 		fc.Add(functions.NewDelegatedFunction(name, func(args []*variants.Variant, ops variants.IVariantOperations) (*variants.Variant, error) {
@@ -271,6 +278,24 @@ func c01Funcs(log *c01Log, vars variables.IVariableCollection) functions.IFuncti
 			}
 		}
 		return variants.VariantFromInteger(len(args))
+	})
+	// N evaluates the SAME calculator again while the outer evaluation has operands pending (re-entrancy),
+	// then returns its first argument; in the reference the nested evaluation is simply absent
+	mkf("N", func(args []*variants.Variant) *variants.Variant {
+		if nested != nil {
+			nested()
+		}
+		if len(args) == 0 {
+			return variants.VariantFromInteger(5)
+		}
+		return args[0]
+	})
+	// D removes the variable a from the collection in use: a later occurrence of a is a missing variable
+	mkf("D", func(args []*variants.Variant) *variants.Variant {
+		if vars != nil {
+			vars.RemoveByName("a")
+		}
+		return variants.VariantFromInteger(0)
 	})
 	return fc
 }
@@ -330,7 +355,7 @@ func c01Run(c *fw.Ctx, tree *enode, tier string) {
 		for _, t := range toks {
 			if v, f := byText[t]; f {
 				vt = append(vt, v)
-			} else if len(t) == 1 && (t[0] >= 'a' && t[0] <= 'd' || t == "F" || t == "G" || t == "B") {
+			} else if len(t) == 1 && (t[0] >= 'a' && t[0] <= 'd' || t == "F" || t == "G" || t == "B" || t == "N" || t == "D") {
 				vt = append(vt, vtok{t, "IDENT", nil})
 			} else if t == "2" {
 				vt = append(vt, vtok{"2", "CONST", 2})
@@ -379,13 +404,17 @@ func c01Run(c *fw.Ctx, tree *enode, tier string) {
 		vars1, desc := mkVars()
 		vars2, _ := mkVars()
 		log1, log2 := &c01Log{}, &c01Log{}
+		nestedEval := func() {
+			vn, _ := mkVars()
+			fw.Try(func() { calc0.EvaluateUsingVariablesAndFunctions(vn, c01Funcs(&c01Log{}, vn, nil)) })
+		}
 		var got *variants.Variant
 		var gerr error
-		pv := fw.Try(func() { got, gerr = calc0.EvaluateUsingVariablesAndFunctions(vars1, c01Funcs(log1, vars1)) })
+		pv := fw.Try(func() { got, gerr = calc0.EvaluateUsingVariablesAndFunctions(vars1, c01Funcs(log1, vars1, nestedEval)) })
 		var want *variants.Variant
 		wantState := ""
 		pv2 := fw.Try(func() {
-			want, wantState = evalTree(tree, &evalEnv{ops: calc0.VariantOperations(), vars: vars2, funcs: c01Funcs(log2, vars2)})
+			want, wantState = evalTree(tree, &evalEnv{ops: calc0.VariantOperations(), vars: vars2, funcs: c01Funcs(log2, vars2, nil)})
 		})
 		c.Eval(1)
 		if pv2 != nil {
